@@ -550,9 +550,10 @@ func Prop() *core.Prop {
 		ID:            "C16",
 		Level:         core.Exploration,
 		Race:          true,
+		Setup:         coldStart,
 		ReplayRepeats: 20,
 		Units:         "inputs",
-		Rule:          "256 cases spread evenly over the index range enumerate all 65536 two-byte continuations of a backslash (bare, embedded in text, and a sample behind other sequences / across offset 128) with every single cut position; the other inputs are PRNG byte strings over escapable characters, backslash/hex sequences (valid, near-valid, both hex cases), invalid UTF-8 and filler, lengths 0-4120 with special material forced at offsets 2,3,127,128,4095,4096; each input goes through String, Bytes, Span (atEOF both ways), Transform under 2-6 (source split, destination capacity) pairs, transform.NewReader and NewWriter, in both directions. A case is non-trivial when the transform changes the input; distinct = distinct (direction, input) among those.",
+		Rule:          "every child process (64 per run) begins with the first use of the transformers made by eight goroutines at once, literal expected outputs (coldstart.go); 256 cases spread evenly over the index range enumerate all 65536 two-byte continuations of a backslash (bare, embedded in text, and a sample behind other sequences / across offset 128) with every single cut position; the other inputs are PRNG byte strings over escapable characters, backslash/hex sequences (valid, near-valid, both hex cases), invalid UTF-8 and filler, lengths 0-4120 with special material forced at offsets 2,3,127,128,4095,4096; each input goes through String, Bytes, Span (atEOF both ways), Transform under 2-6 (source split, destination capacity) pairs, transform.NewReader and NewWriter, in both directions. A case is non-trivial when the transform changes the input; distinct = distinct (direction, input) among those.",
 		Assumptions: []string{
 			"the 15-line reference implementation of XEP-0106 in props/c16 is correct",
 			"a destination smaller than one output unit (3 bytes for Escape) may legitimately never progress; such drives are counted, not judged",
